@@ -1,5 +1,50 @@
-(** C18 -- placeholder while the proofs are built *)
-From RL Require Import Model.Decode.
-Theorem C18_placeholder : m_decode strict_opts [] = Val (Err [IncompleteFlags], []).
-Proof. reflexivity. Qed.
-Print Assumptions C18_placeholder.
+(** C18 -- SliceReader and VecWriter behave as a plain cursor and a plain vector.
+    [c_ops] (Spec/SpecCursor.v) is the reference: an immutable octet list plus a
+    position; [Some] means every precondition along the sequence held.  The list
+    reader (the Model of SliceReader: the unread suffix) returns exactly the
+    reference's observations and ends at the suffix of the reference's position. *)
+From RL Require Import Model.Reader Model.Encode Model.Ops Spec.SpecDecode Spec.SpecCursor Proofs.Cursor.
+
+Theorem C18_reader_refines_cursor : forall ops d pos r pos', pos <= len d ->
+  c_ops ops d pos = Some (r, pos') ->
+  run_rops ops (dropN pos d) = Val (r, dropN pos' d) /\ pos' <= len d.
+Proof. exact reader_refines_cursor. Qed.
+
+Theorem C18_bytes_too_long : forall n l, len l < n -> run (bytes_ n) l = Val (None, l).
+Proof. exact bytes_too_long. Qed.
+
+Theorem C18_writer_is_vector : forall o w,
+  wop_step w o =
+  match o with
+  | WU8 x => Val ({| w_data := w_data w ++ [x mod 256]; w_log := w_log w |}, None)
+  | WU16 x => Val ({| w_data := w_data w ++ be16 x; w_log := w_log w |}, None)
+  | WU32 x => Val ({| w_data := w_data w ++ be32 x; w_log := w_log w |}, None)
+  | WU64 x => Val ({| w_data := w_data w ++ be64 x; w_log := w_log w |}, None)
+  | WBytes b => Val ({| w_data := w_data w ++ b; w_log := w_log w |}, None)
+  | WBytesAt b off =>
+    match vec_at (w_data w) b off with
+    | Some d => Val ({| w_data := d; w_log := w_log w ++ [(off, len b, len (w_data w))] |}, None)
+    | None => Panic PkAssert
+    end
+  | WLen => Val (w, Some (ONum (len (w_data w))))
+  | WIsEmpty => Val (w, Some (OBool (len (w_data w) =? 0)))
+  end.
+Proof. exact writer_is_vector. Qed.
+
+Theorem C18_overwrite_keeps_length : forall buf bs off d, vec_at buf bs off = Some d -> len d = len buf.
+Proof. exact overwrite_keeps_length. Qed.
+
+Theorem C18_overwrite_refused : forall buf bs off, len buf < off + len bs -> vec_at buf bs off = None.
+Proof. exact overwrite_refused. Qed.
+
+(** non-vacuity: a nested program over 8 octets whose preconditions hold *)
+Example C18_example :
+  c_ops [RU8; RSub 3 [RU16; RLen]; RBytes 9; RLen; RBytes 4] [1;2;3;4;5;6;7;8] 0
+  = Some ([ONum 1; OSub [ONum 515; ONum 1]; OBytes None; ONum 4; OBytes (Some [5;6;7;8])], 8).
+Proof. vm_compute. reflexivity. Qed.
+
+Print Assumptions C18_reader_refines_cursor.
+Print Assumptions C18_bytes_too_long.
+Print Assumptions C18_writer_is_vector.
+Print Assumptions C18_overwrite_keeps_length.
+Print Assumptions C18_overwrite_refused.
